@@ -17,6 +17,12 @@ def stream_cases(pid, seed, tier, *, record=None, K=(12, 24), monitor=1.0, fly=0
     rng = gen.rng_for(pid, seed)
     specs = gen.gen_world(rng, flyers=1, p_async=0.25)
     specs["sigS"] = {"kind": "signal", "initial": 0}
+    if rng.random() < 0.35:
+        # a Pausable device whose pause() really awaits: pausing / starting a suspension then has an await point of
+        # its own, inside which the next interruption can land
+        d = rng.choice([n for n, s in specs.items() if s["kind"] in ("det", "pdet", "motor", "pmotor")])
+        specs[d]["kind"] = "p" + specs[d]["kind"].lstrip("p")
+        specs[d].setdefault("async", {})["pause"] = rng.choice([0.0, 0.05, 0.3])
     pg = gen.PlanGen(rng, specs)
     S = pg.S
     body = []
